@@ -430,9 +430,14 @@ func cmdCheck(args []string) int {
 		},
 		"assumptions": keysOf(assumed),
 	}
-	os.MkdirAll(filepath.Join(verifDir, "evidence"), 0o755)
+	evDir := filepath.Join(verifDir, "evidence")
+	if os.Getenv("VF_REPO") != "" {
+		// trying a seeded change against a scratch worktree: never touch the evidence of /repo
+		evDir = filepath.Join(os.TempDir(), "vf-seed-evidence")
+	}
+	os.MkdirAll(evDir, 0o755)
 	eb, _ := json.MarshalIndent(ev, "", " ")
-	os.WriteFile(filepath.Join(verifDir, "evidence", prop+".json"), eb, 0o644)
+	os.WriteFile(filepath.Join(evDir, prop+".json"), eb, 0o644)
 	fmt.Printf("%s tier=%s obligations=%d paths=%d queries=%d (unsat %d) wall=%.1fs exit=%d\n", prop, tier, len(results), paths, evals, nunsat, wall, exit)
 	return exit
 }
